@@ -856,7 +856,8 @@ def rule_R6(ctx, M):
         else:
             break
     rets0 = [n for n in ast.walk(term) if isinstance(n, ast.Return)]
-    ctx.anchor(len(rets0) == 1 and isinstance(rets0[0].value, ast.Name),
+    ctx.anchor(rets0 and all(isinstance(r_.value, ast.Name) for r_ in rets0)
+               and len({r_.value.id for r_ in rets0}) == 1,
                '_terminate returns its finished flag')
     fin = rets0[0].value.id
     for test, body in arms:
@@ -892,7 +893,8 @@ def rule_R6(ctx, M):
     # return value of _terminate is `finished`
     rets = [n for n in ast.walk(term) if isinstance(n, ast.Return)]
     ctx.check('C01.R6.message', '_terminate returns finished',
-              len(rets) == 1 and ast.unparse(rets[0].value) == fin,
+              rets and all(r_.value is not None and
+                           ast.unparse(r_.value) == fin for r_ in rets),
               '_terminate does not return its finished flag',
               ctx.where(sm, term))
     # krylov: info > 0 arm stores a non-success message unconditionally
